@@ -21,6 +21,7 @@ from zope.interface import directlyProvidedBy, directlyProvides
 from zope.interface import implementedBy, implementer, implementer_only
 from zope.interface import noLongerProvides, providedBy, provider
 from zope.interface.interface import InterfaceClass
+from zope.interface.declarations import BuiltinImplementationSpecifications
 
 job = childlib.job()
 PROPS = set(job['props'])
@@ -60,7 +61,17 @@ class World:
             setattr(self.mod, 'I%d' % i, I)
         pb = job['pybases']
         self.cls = {0: object}
+        self.builtins = []
         for c in range(1, len(pb)):
+            bt = (job.get('builtin') or {}).get(str(c))
+            if bt:
+                # a real built-in (immutable) type stands for this class
+                import builtins
+                K = getattr(builtins, bt)
+                BuiltinImplementationSpecifications.pop(K, None)
+                self.builtins.append(K)
+                self.cls[c] = K
+                continue
             K = type('K%d' % c, tuple(self.cls[b] for b in fget0(pb, c)),
                      {'__module__': self.modname})
             self.cls[c] = K
@@ -71,6 +82,8 @@ class World:
 
     def close(self):
         sys.modules.pop(self.modname, None)
+        for K in self.builtins:
+            BuiltinImplementationSpecifications.pop(K, None)
 
     def ifs(self, ids):
         return [self.iface[i] for i in ids]
@@ -274,6 +287,8 @@ class World:
                     mism(ctx, 'unpickled implementedBy(K%d) equal/hash' % c,
                          True, False)
                 # class-level provides declaration, pickled directly
+                if K in self.builtins:
+                    continue            # cannot carry a __provides__
                 cp = K.__provides__
                 data = pickle.dumps(cp, proto)
                 self.names_only(data, ctx, 'K%d.__provides__' % c)
